@@ -18,6 +18,7 @@ From Annet Require Import Base.Str Base.Tree Model.Pattern Model.Rulebook Model.
      Proofs.ConvergeDevice Proofs.ConvergeRun Proofs.ConvergeBlocks Proofs.ConvergeSim Proofs.ConvergeMain
      Proofs.ConvergeTop Proofs.ConvergeSecond Proofs.ConvergeFinal Proofs.ConvergeReport.
 From Annet Require Import Spec.P_C01o Spec.P_C01ord Proofs.ConvergeOrdSeq Proofs.ConvergeOrdFlat.
+From Annet Require Import Spec.P_C01rw Proofs.ConvergeRewrite.
 Import ListNotations.
 Open Scope string_scope.
 
@@ -361,3 +362,162 @@ Definition C01_ordered_general_statement : Prop :=
                        is_ordered s = true -> same_slot s s' = true -> r = r') ->
     let dev := p_exec v rs (cmd_paths (v_family v) pt) old in
     sim (p_prune rs dev) (p_prune rs (p_expected rs old new)) /\ p_seq_agree rs dev new = true.
+
+(* ---------- %rewrite rules: the patch + device half proved at every depth; the block statement; two refutations ---------- *)
+
+(* C01_rewrite_patch_builds_partial.  A block whose body is governed by %rewrite rules (rewrite_diff + logic
+   `rewrite`; shipped: `xpl ~ / ~ %rewrite %global`, `prefix-set * / ~ %rewrite %global`) is reset by the device when it is
+   entered (Device.enter).  For EVERY diff D, of any depth and width, whose levels are governed by one %rewrite rule each with
+   distinct keys and whose entries are MOVED / ADDED / REMOVED ([dok], [lvl] of Proofs/ConvergeRewrite.v - what rewrite_diff of
+   a changed block yields: aff_to_moved leaves no AFFECTED entry, [C01_rewrite_diff_not_marked]):
+   (1) make_pre / make_patch / logic `rewrite` compute a patch - no AssertionError -, whatever the ordering rulebook;
+   (2) if the ordering rulebook gives the direct commands of one level one sort key ([rw_keys_ok_b], at every depth), executing
+       that patch inside the block that has just been reset builds EXACTLY the entries of D that are not REMOVED, in D's
+       order, with their children alike ([built]): equality of forests, i.e. rows in sequence at every depth.
+   Proof: Proofs/ConvergeRewrite.v (make_pre groups one rule with distinct keys into one bucket per entry; `rewrite` yields
+   nothing for a REMOVED key and the row for a MOVED / ADDED one; the stable sort is the identity on equal keys; each direct
+   command finds its slot free and appends; induction on the diff with the nested level lemma).
+   PARTIAL with respect to [C01_rewrite_block_statement] below: the diff half (built (rewrite_diff bo bn) = bn, the diff is
+   all-AFFECTED only if bo = bn) and the header step (enter = reset) are not proved; they are evaluated by vm_compute on
+   examples only ([C01_rewrite_block_examples]) and by the check on real outputs. *)
+Theorem C01_rewrite_patch_builds_partial :
+  forall v rs ordering D,
+    Forall (fun d => dok pm (v_is_exit v) d rs) D -> lvl D ->
+    exists pt, p_make_patch v ordering (make_pre D) = POk pt /\
+      (rw_keys_ok_b pm pt rs = true ->
+       run_pt pm (prreverse v) (v_is_exit v) pt rs [] = flat_map built D).
+Proof. exact rewrite_patch_builds. Qed.
+Print Assumptions C01_rewrite_patch_builds_partial.
+
+(* rewrite_diff of a changed block (aff_to_moved) contains no AFFECTED entry, so mark_unchanged does not touch it *)
+Theorem C01_rewrite_diff_not_marked : forall d, mark_unchanged (aff_to_moved d) = aff_to_moved d.
+Proof. exact mark_aff_to_moved. Qed.
+Print Assumptions C01_rewrite_diff_not_marked.
+
+(* the shipped shape: `xpl ~` with `~ %rewrite %global` below, nested bodies *)
+Definition c01_rw_rules : rset :=
+  ([PRule "xpl ~" false (Attrs "xpl ~" LDefault DDefault true false) []
+      [PRule "~ %rewrite %global" false (Attrs "~" LRewrite DRewrite false false) [] []]], []).
+Definition c01_rw_old : forest :=
+  [("xpl foo", T [("a", T [("x", T []); ("y", T [])]); ("b", T []); ("c", T [])])].
+Definition c01_rw_new : forest :=
+  [("xpl foo", T [("c", T []); ("a", T [("y", T []); ("z", T []); ("x", T [])]); ("d", T [])])].
+Definition c01_rwf_old : forest := [("xpl foo", T (leaves ["a"; "b"; "c"]))].
+Definition c01_rwf_new : forest := [("xpl foo", T (leaves ["a"; "c"; "d"]))].
+Definition c01_rw_body_diff : list dnode :=
+  match p_make_diff c01_rw_rules c01_rwf_old c01_rwf_new with [DN _ _ _ k] => k | _ => [] end.
+
+(* non-vacuity of the guards of C01_rewrite_patch_builds_partial: the body diff the model computes for
+   [a; b; c] -> [a; c; d] below `xpl foo` (two rows MOVED, one REMOVED, one ADDED) satisfies [dok] and [lvl] *)
+Definition c01_rw_mi (r : string) : minfo := MI "~ %rewrite %global" [r] (Attrs "~" LRewrite DRewrite false false).
+Definition c01_rw_D : list dnode :=
+  [DN Moved "a" (c01_rw_mi "a") []; DN Moved "c" (c01_rw_mi "c") []; DN Removed "b" (c01_rw_mi "b") []; DN Added "d" (c01_rw_mi "d") []].
+Example C01_rewrite_patch_builds_nonvacuous :
+  c01_rw_body_diff = c01_rw_D /\
+  Forall (fun d => dok pm (v_is_exit c01_ex_v) d (rw_crs c01_rw_rules "xpl foo")) c01_rw_D /\
+  lvl c01_rw_D /\ flat_map built c01_rw_D = leaves ["a"; "c"; "d"].
+Proof.
+  split; [vm_compute; reflexivity|]. split; [|split; [|reflexivity]].
+  - assert (L0 : lvl []) by (split; [intros ? ? []|constructor]).
+    assert (K : forall o r, (o = Moved \/ o = Added) -> v_is_exit c01_ex_v r = false ->
+                (exists crs, match_row pm r (rw_crs c01_rw_rules "xpl foo") = Some (c01_rw_mi r, crs)) ->
+                dok pm (v_is_exit c01_ex_v) (DN o r (c01_rw_mi r) []) (rw_crs c01_rw_rules "xpl foo")).
+    { intros o r Ho He (crs & Hm). cbn [dok]. split; [reflexivity|]. split; [reflexivity|]. right.
+      split; [exact Ho|]. split; [exact He|]. split; [reflexivity|]. exists crs. split; [exact Hm|]. split; [exact L0 | exact I]. }
+    unfold c01_rw_D. constructor; [|constructor; [|constructor; [|constructor; [|constructor]]]].
+    + apply K; [left; reflexivity | vm_compute; reflexivity | eexists; vm_compute; reflexivity].
+    + apply K; [left; reflexivity | vm_compute; reflexivity | eexists; vm_compute; reflexivity].
+    + cbn [dok]. split; [reflexivity|]. split; [reflexivity|]. left. reflexivity.
+    + apply K; [right; reflexivity | vm_compute; reflexivity | eexists; vm_compute; reflexivity].
+  - split.
+    + intros d d' Hd Hd'. unfold c01_rw_D in Hd, Hd'. cbn [In] in Hd, Hd'.
+      destruct Hd as [Hd|[Hd|[Hd|[Hd|[]]]]]; destruct Hd' as [Hd'|[Hd'|[Hd'|[Hd'|[]]]]]; subst d d'; split; reflexivity.
+    + unfold c01_rw_D, dkey. cbn [map d_mi mi_key c01_rw_mi].
+      constructor; [intros [H|[H|[H|[]]]]; discriminate|].
+      constructor; [intros [H|[H|[]]]; discriminate|].
+      constructor; [intros [H|[]]; discriminate|].
+      constructor; [intros []|]. constructor.
+Qed.
+
+(* C01_rewrite_block_statement (stated, not proved as a whole).  A block header present in old and new whose bodies are
+   governed by %rewrite rules at every depth, in the computable domain [wf_rw_block] of Spec/P_C01rw.v (the key determines
+   the row on every level of the universe of the two bodies; the ordering rulebook does not tear a level apart): the patch
+   is computed and executing the model's command paths on old yields new - EQUAL AS A FOREST.  [wf_rw_flat]: leaf bodies.
+   Proved: the patch + device half for bodies of any depth (C01_rewrite_patch_builds_partial).  Missing: (a) on the domain,
+   [flat_map built] of rewrite_diff's output for (bo, bn) is bn and its entries satisfy [dok] / [lvl] (induction on bn over
+   scan_new with inrw = true; REMOVED entries are interleaved and contribute nothing), (b) rewrite_diff clears the diff only if
+   bo = bn (from C03_lossless: rw_unchanged), (c) the header step: exec_cmd on the header enters the block and Device.enter
+   drops every child (all are governed by %rewrite rules), and prows_ok of the patch so that cmd_paths = run_pt
+   (C01_cmd_paths_follow_blocks). *)
+Definition C01_rewrite_block_statement : Prop :=
+  forall v rs ordering old new, wf_rw_block v rs ordering old new = true ->
+  exists pt, snd (diff_and_patch v rs ordering old new) = POk pt /\
+             p_exec v rs (cmd_paths (v_family v) pt) old = new.
+Definition C01_rewrite_flat_statement : Prop :=
+  forall v rs ordering old new, wf_rw_flat v rs ordering old new = true ->
+  exists pt, snd (diff_and_patch v rs ordering old new) = POk pt /\
+             p_exec v rs (cmd_paths (v_family v) pt) old = new.
+
+(* the statement evaluated on two instances (examples, not the unbounded claim): a flat body and the nested body above; the
+   second also shows the guard [wf_rw_block] is satisfiable by a nested input and that an unchanged block yields no command *)
+Example C01_rewrite_block_examples :
+  wf_rw_flat c01_ex_v c01_rw_rules [] c01_rwf_old c01_rwf_new = true /\
+  model_paths c01_ex_v c01_rw_rules [] c01_rwf_old c01_rwf_new =
+    Some [["xpl foo"]; ["xpl foo"; "a"]; ["xpl foo"; "c"]; ["xpl foo"; "d"]; ["xpl foo"; "end-list"]] /\
+  p_exec c01_ex_v c01_rw_rules [["xpl foo"]; ["xpl foo"; "a"]; ["xpl foo"; "c"]; ["xpl foo"; "d"]; ["xpl foo"; "end-list"]]
+         c01_rwf_old = c01_rwf_new /\
+  wf_rw_block c01_ex_v c01_rw_rules [] c01_rw_old c01_rw_new = true /\
+  (match model_paths c01_ex_v c01_rw_rules [] c01_rw_old c01_rw_new with
+   | Some ps => forest_eqb (p_exec c01_ex_v c01_rw_rules ps c01_rw_old) c01_rw_new
+   | None => false
+   end) = true /\
+  model_paths c01_ex_v c01_rw_rules [] c01_rw_new c01_rw_new = Some [].
+Proof. vm_compute. repeat split; reflexivity. Qed.
+
+(* C01_rewrite_retext_refuted.  The guard "the key determines the row" is necessary, and convergence is FALSE for %rewrite
+   rules whose key does not contain the whole row - of the model and of the real pipeline (replayed by the check, known
+   finding C01/rewrite/retext-dropped): rule `ent * %rewrite` below `xpl *`, the row of key 1 changes its text from
+   `ent 1 x` to `ent 1 y`.  rewrite_diff reports ADDED `ent 1 y` and REMOVED `ent 1 x`; make_pre puts both under key 1; the
+   logic `rewrite` yields NOTHING for a key that has a REMOVED entry - so the new row is never emitted.  The block is entered
+   (reset) and only `ent 2 x` is re-created: the device loses `ent 1 y`.  Everything else of [wf_rw_block] holds
+   (rw_order_ok, header); a second run repairs it.  Shipped %rewrite rules are all `~` (key = row), where this cannot
+   happen. *)
+Definition c01_rwt_rules : rset :=
+  ([PRule "xpl *" false (Attrs "xpl *" LDefault DDefault true false)
+      [PRule "ent * %rewrite" false (Attrs "ent *" LRewrite DRewrite false false) [] []] []], []).
+Definition c01_rwt_old : forest := [("xpl foo", T (leaves ["ent 1 x"; "ent 2 x"]))].
+Definition c01_rwt_new : forest := [("xpl foo", T (leaves ["ent 1 y"; "ent 2 x"]))].
+Theorem C01_rewrite_retext_refuted :
+  p_rw_dom c01_ex_v (rw_crs c01_rwt_rules "xpl foo") (merge (leaves ["ent 1 x"; "ent 2 x"]) (leaves ["ent 1 y"; "ent 2 x"])) = false /\
+  rw_header_ok c01_ex_v c01_rwt_rules "xpl foo" = true /\ rw_order_ok c01_ex_v c01_rwt_rules [] c01_rwt_old c01_rwt_new = true /\
+  p_slots_unique c01_rwt_rules c01_rwt_old = true /\ p_slots_unique c01_rwt_rules c01_rwt_new = true /\
+  model_paths c01_ex_v c01_rwt_rules [] c01_rwt_old c01_rwt_new =
+    Some [["xpl foo"]; ["xpl foo"; "ent 2 x"]; ["xpl foo"; "end-list"]] /\
+  (let dev := p_exec c01_ex_v c01_rwt_rules [["xpl foo"]; ["xpl foo"; "ent 2 x"]; ["xpl foo"; "end-list"]] c01_rwt_old in
+   dev = [("xpl foo", T (leaves ["ent 2 x"]))] /\ sim_b dev c01_rwt_new = false /\
+   model_paths c01_ex_v c01_rwt_rules [] dev c01_rwt_new =
+     Some [["xpl foo"]; ["xpl foo"; "ent 1 y"]; ["xpl foo"; "ent 2 x"]; ["xpl foo"; "end-list"]]).
+Proof. vm_compute. repeat split; reflexivity. Qed.
+Print Assumptions C01_rewrite_retext_refuted.
+
+(* C01_rewrite_mixed_refuted.  "All rows of the body are governed by %rewrite rules" is necessary on the device of
+   Model/Device.v: in a block with a %rewrite child rule AND an ordinary child rule, a change of the ordinary row makes the
+   patch enter the block - which resets its %rewrite children - while rewrite_diff, seeing its own rows unchanged, reports
+   nothing for them: they are lost until a second run re-creates them.  Model = real pipeline on this input (replayed by the
+   check).  No shipped rulebook mixes the two (`~ %rewrite %global` catches every row of the block). *)
+Definition c01_rwm_rules : rset :=
+  ([PRule "xpl *" false (Attrs "xpl *" LDefault DDefault true false)
+      [PRule "ent * %rewrite" false (Attrs "ent *" LRewrite DRewrite false false) [] [];
+       PRule "mtu *" false (Attrs "mtu *" LDefault DDefault false false) [] []] []], []).
+Definition c01_rwm_old : forest := [("xpl foo", T (leaves ["ent 1"; "mtu 5"]))].
+Definition c01_rwm_new : forest := [("xpl foo", T (leaves ["ent 1"; "mtu 6"]))].
+Theorem C01_rewrite_mixed_refuted :
+  p_slots_unique c01_rwm_rules c01_rwm_old = true /\ p_slots_unique c01_rwm_rules c01_rwm_new = true /\
+  model_paths c01_ex_v c01_rwm_rules [] c01_rwm_old c01_rwm_new =
+    Some [["xpl foo"]; ["xpl foo"; "undo mtu 5"]; ["xpl foo"; "mtu 6"]; ["xpl foo"; "end-list"]] /\
+  (let dev := p_exec c01_ex_v c01_rwm_rules [["xpl foo"]; ["xpl foo"; "undo mtu 5"]; ["xpl foo"; "mtu 6"]; ["xpl foo"; "end-list"]] c01_rwm_old in
+   dev = [("xpl foo", T (leaves ["mtu 6"]))] /\ sim_b dev c01_rwm_new = false /\
+   model_paths c01_ex_v c01_rwm_rules [] dev c01_rwm_new =
+     Some [["xpl foo"]; ["xpl foo"; "ent 1"]; ["xpl foo"; "end-list"]]).
+Proof. vm_compute. repeat split; reflexivity. Qed.
+Print Assumptions C01_rewrite_mixed_refuted.
